@@ -1552,3 +1552,108 @@ def run(ctx, out):   # noqa: F811
     out.coverage['scenario_loads'] = a['loads'] + b['loaded_from_ecore']
     out.coverage['scenario_edits'] = a['edits'] + b['edits']
     out.coverage['scenario_resolutions_checked'] = a['resolutions'] + b['resolutions']
+
+
+# ---------------------------------------------------------------------------
+# list-based containment (unique=False): positions exchanged by item assignment (`l[i], l[j] = l[j], l[i]`, the natural
+# "move" on a list), an element assigned to its own position, next to insert / pop / remove / append; after every call
+# every object of the tree resolves from its fragment and fragments are pairwise distinct
+# (oracle on the implementation only; the kernel model has no item assignment on lists)
+
+def list_move_scenarios(ctx, out):
+    common.use_repo()
+    from pyecore import ecore as E
+    from pyecore.resources import ResourceSet, URI
+    rng = common.rng_for(ctx.seed, 'C11:listmove')
+    n = 40 if ctx.tier != 'thorough' else 800
+    cnt = res_cnt = 0
+    for it in range(n):
+        N = E.EClass('N')
+        N.eStructuralFeatures.append(E.EAttribute('name', E.EString))
+        N.eStructuralFeatures.append(E.EReference('kids', N, upper=-1, containment=True, unique=False,
+                                                  ordered=rng.random() < 0.8))
+        nroots = rng.choice([1, 1, 2])
+        rs = ResourceSet()
+        res = rs.create_resource(URI('/nonexistent/listmove.xmi'))
+        count = [0]
+
+        def mk(depth):
+            o = N(name=f'n{count[0]}')
+            count[0] += 1
+            if depth < 2:
+                for _ in range(rng.randrange(0, 4)):
+                    o.kids.append(mk(depth + 1))
+            return o
+        roots = [mk(0) for _ in range(nroots)]
+        for r in roots:
+            res.append(r)
+        hist = [['tree', [[o.name, [k.name for k in o.kids]] for r in roots for o in [r] + list(r.eAllContents())]]]
+        bad = None
+        for step in range(rng.randrange(3, 9)):
+            objs = [o for r in res.contents for o in [r] + list(r.eAllContents())]
+            holders = [o for o in objs if len(o.kids) >= 1]
+            if not holders:
+                break
+            h = rng.choice(holders)
+            k = rng.choice(['swap', 'swap', 'self', 'insert', 'pop', 'append'])
+            L = h.kids
+            try:
+                if k == 'swap' and len(L) >= 2:
+                    i, j = rng.sample(range(len(L)), 2)
+                    L[i], L[j] = L[j], L[i]
+                    hist.append(['swap', h.name, i, j])
+                elif k == 'self':
+                    i = rng.randrange(len(L))
+                    L[i] = L[i]
+                    hist.append(['self-assign', h.name, i])
+                elif k == 'insert':
+                    c = N(name=f'n{count[0]}')
+                    count[0] += 1
+                    i = rng.randrange(0, len(L) + 1)
+                    L.insert(i, c)
+                    hist.append(['insert', h.name, i, c.name])
+                elif k == 'pop':
+                    i = rng.randrange(len(L))
+                    L.pop(i)
+                    hist.append(['pop', h.name, i])
+                elif k == 'append':
+                    c = N(name=f'n{count[0]}')
+                    count[0] += 1
+                    L.append(c)
+                    hist.append(['append', h.name, c.name])
+                else:
+                    continue
+            except Exception as e:  # noqa
+                bad = ('call-raised', f'{hist[-1] if hist else k} -> {type(e).__name__}: {e}')
+            cnt += 1
+            if not bad:
+                seen = {}
+                for o in [o for r in res.contents for o in [r] + list(r.eAllContents())]:
+                    try:
+                        fr = o.eURIFragment()
+                        got = res.resolve(fr)
+                    except Exception as e:  # noqa
+                        bad = ('resolve-raised', f'{o.name}: {type(e).__name__}: {e}')
+                        break
+                    res_cnt += 1
+                    if got is not o:
+                        bad = ('fragment-resolves-elsewhere', f'fragment {fr!r} of {o.name} resolves to {getattr(got, "name", got)}')
+                        break
+                    if fr in seen:
+                        bad = ('fragment-shared', f'{o.name} and {seen[fr]} share the fragment {fr!r}')
+                        break
+                    seen[fr] = o.name
+            if bad:
+                out.fail({'property': 'C11', 'clause': bad[0], 'scenario': 'listmove'}, f'after {hist[-1]}: {bad[1]}',
+                         {'scenario': 'listmove', 'seed': ctx.seed, 'tier': ctx.tier, 'history': hist})
+                break
+    out.coverage['list_containment_moves'] = {'calls': cnt, 'resolutions': res_cnt}
+
+
+SCENARIOS['listmove'] = list_move_scenarios
+_run_ids = run
+
+
+def run(ctx, out):   # noqa: F811
+    _run_ids(ctx, out)
+    list_move_scenarios(ctx, out)
